@@ -4,7 +4,7 @@
     controller goroutine (Pause, Schedule at CurrentTime()+d ..., Continue — what a
     monitor does) and EVERY scheduler oracle (goroutine interleaving). *)
 From Coq Require Import Permutation.
-From Akita Require Import Lib.Base Lib.Lts C04.Model C04.Proofs1 C04.Proofs2 C04.Proofs2b C04.Proofs3 C04.Proofs4 C04.Proofs5 C04.Proofs6 C04.Proofs7.
+From Akita Require Import Lib.Base Lib.Lts C04.Model C04.Proofs1 C04.Proofs2 C04.Proofs2b C04.Proofs3 C04.Proofs4 C04.Proofs5 C04.Proofs6 C04.Proofs7 C04.Proofs8.
 Local Open Scope N_scope.
 
 (** Exactly once: at every moment scheduled = handled + live (spawned or executing
@@ -103,6 +103,16 @@ Theorem c04_queue_accounting : forall prog nq init o, (1 <= nq)%nat ->
   G1 s /\ (e_pc s = EScan 0 -> chan (e_sec s) s = [] /\ held (e_sec s) (e_ws s) = []).
 Proof. intros prog nq init o H. exact (queue_accounting prog nq init o H). Qed.
 Print Assumptions c04_queue_accounting.
+
+(** The queue accounting WITH a well-formed controller (its Schedule calls count as
+    check-outs): the same conclusion holds, so also a paused controller's Schedule can
+    never reach a queue the round has not yet scanned. *)
+Theorem c04_queue_accounting_ctl : forall prog nq init script o, (1 <= nq)%nat -> cwf false script = true ->
+  let s := e_run prog o (e_init_ctl nq init script) in
+  G1c s /\
+  (e_pc s = EScan 0 -> chan (e_sec s) s = [] /\ held (e_sec s) (e_ws s) = [] /\ cterm (e_sec s) s = 0%nat).
+Proof. intros prog nq init script o H Hc. exact (queue_accounting_ctl prog nq init script o H Hc). Qed.
+Print Assumptions c04_queue_accounting_ctl.
 
 (** Schedule-independence of the round composition (no controller), for EVERY
     interleaving and every number of queues: in every reachable state with n rounds
